@@ -21,7 +21,7 @@ PickShard == st.kind = "init" /\ \E s \in 0..(NSh - 1) : st' = [kind |-> "shard"
 Pick == st.kind = "shard" /\ \E n \in 1..Len(Cases) : n % NSh = st.s /\ st' = [kind |-> "case", n |-> n]
 Next == PickShard \/ Pick
 
-ActAll(g, X) == [b \in 1..Len(X) |-> [c \in 1..Len(X[b]) |-> Act(g, X[b][c])]]
+ActAll(g, X) == Eager([b \in 1..Len(X) |-> Eager([c \in 1..Len(X[b]) |-> Act(g, X[b][c])])])
 Vals(X)      == [b \in 1..Len(X) |-> [c \in 1..Len(X[b]) |-> X[b][c].val]]
 
 EquivLaw(cs) ==
